@@ -176,15 +176,15 @@ static hc::Outcome run_one(hc::RunSpec& rs) {
     c.def("beta", r.pick(std::vector<int>{1, 2, 3, 5, 8, 10, 20}));
     c.def("wf", r.pct(25) ? 0 : 1);
     { // 1..3 consecutive bulk computations; the first is split with 65 %, clears terms with 12 %
-        int nc = r.pct(75) ? 1 : r.range(2, 3); std::string cs;
-        for (int i = 0; i < nc; i++) { if (i) cs += ','; cs += r.pct(65) ? 's' : 'n'; cs += r.pct(12) ? '1' : '0'; }
+        int nc = r.pct(65) ? 1 : r.range(2, 3); std::string cs;
+        for (int i = 0; i < nc; i++) { if (i) cs += ','; cs += r.pct(65) ? 's' : 'n'; cs += r.pct(nc > 1 ? 30 : 12) ? '1' : '0'; }
         c.def("calls", cs);
     }
     c.def("hrep", r.pct(80) ? 0 : r.range(1, 15));
     int nm = models::nmodes(model);
     int K = (c.i("wf") == 0) ? r.range(1, 2) : r.range(1, nm == 2 ? 6 : 5);
     { std::string q; std::set<std::string> seen; for (int k = 0; k < K; k++) { std::string s = models::rand_quad(r, nm); if (c.i("wf") == 1 && !seen.insert(s).second) continue; if (!q.empty()) q += ','; q += s; } c.def("quads", q); }
-    c.def("freqs", r.pct(20) ? std::string("-") : models::rand_freqs(r, r.range(1, 6)));
+    { int x = r.below(100); c.def("freqs", x < 18 ? std::string("-") : x < 26 ? models::rand_grid_freqs(r, thorough_models || model == models::ATOM || model == models::ATOM_FIELD ? 8192 : 1025) : models::rand_freqs(r, r.range(1, 6))); }
     hc::sim_defaults_from_seed(c, r, P);
     // normalise
     Workload w;
